@@ -52,7 +52,7 @@ def mkimg(rnd):
 def layout(rnd, widgets, urwid):
     ws = list(widgets)
     rnd.shuffle(ws)
-    k = rnd.choice(["cols", "pile", "overlay", "overlay", "list", "colspile", "filler", "shift", "shift"])
+    k = rnd.choice(["cols", "pile", "overlay", "overlay", "list", "colspile", "filler", "shift", "shift", "bare", "solid"])
 
     def txt():
         return urwid.Filler(urwid.Text("t" * rnd.randint(1, 30)))
@@ -60,6 +60,12 @@ def layout(rnd, widgets, urwid):
     def deco(w):
         return rnd.choice([w, w, urwid.LineBox(w)])
 
+    if k == "bare":
+        # the image widget itself is the topmost widget: its canvas reaches the screen unwrapped
+        return k, ws[0]
+    if k == "solid":
+        # a topmost widget whose canvas is not a composite one (images disappear altogether)
+        return k, urwid.SolidFill(rnd.choice("#. "))
     if k == "shift":
         # an image column of fixed width behind a spacer whose width the history changes:
         # the image keeps its size (same cached canvas) but moves horizontally/vertically
